@@ -92,6 +92,15 @@ def full_layer_name(spec, short):
     return spec['layers_module'] + '.' + short
 
 
+def layer_pattern(spec, short):
+    """A --layer pattern that selects exactly this layer (layer names may
+    contain characters that mean something in a regular expression; when one
+    name is the tail of another the pattern is anchored at both ends)."""
+    if short is None or short == 'UNIT':
+        return 'UnitTests$'
+    return '^%s$' % re.escape(full_layer_name(spec, short))
+
+
 def class_mro(spec, name):
     """MRO (short names) for class layers; for instance layers: closure
     in DFS order."""
